@@ -379,5 +379,30 @@ def r8_existential_predicates(chk: Check) -> None:
         chk.undecided("C02.R8", "<discovery>", f"sites={n}", "predicates not found")
 
 
+def r9_oracle_dialect(chk: Check) -> None:
+    chk.rule("C02.R9", "SIBLINGS-AGREE(JSON Schema dialect of the invalidity oracle): the validator behind `negative_schema(...).filter(not validator.is_valid)` reads the schema the way the rest of the pipeline does for Swagger 2.0 / OpenAPI 3.0 - the class BaseOpenAPISchema.validator_cls falls back to (Draft 4: `exclusiveMaximum: true` is a flag); a later draft reads the boolean as the NUMBER 1, declares every value >= 1 invalid, and valid mutated values pass the filter under a negative label", floor=1)
+    P = chk.project
+    gv = P.func(f"{NEG}:get_validator")
+    vc = P.func("specs/openapi/schemas.py:BaseOpenAPISchema.validator_cls")
+    import re as _re
+
+    def draft(e: ast.AST | None) -> str | None:
+        m = _re.search(r"Draft\d+Validator", unparse(e)) if e is not None else None
+        return m.group(0) if m else None
+
+    rets = [r for r in vc.node.body if isinstance(r, ast.Return)]  # the unconditional fall-through return
+    fallback = draft(rets[-1].value) if rets else None
+    used = {draft(c.func) for r in simple_return_expr(gv) for c in ast.walk(r) if isinstance(c, ast.Call)} - {None}
+    construct = "get_validator uses the dialect validator_cls falls back to"
+    if fallback is None or not used:
+        chk.undecided("C02.R9", gv, construct, f"validator classes not recognised (fallback={fallback}, used={sorted(used)})", gv.loc())  # type: ignore[type-var]
+    elif used == {fallback}:
+        chk.ok("C02.R9", gv, construct, fallback, gv.loc())
+    else:
+        chk.violation("C02.R9", gv, construct,
+                      f"the negative filter validates with {sorted(used)} while OpenAPI 2.0 / 3.0 schemas are read with {fallback} everywhere else (response validation, negative_data_rejection): for `{{type: number, maximum: 100, exclusiveMaximum: true}}` the two disagree on every value >= 1, so a mutated draw that still conforms is kept and the case is labelled negative",  # type: ignore[type-var]
+                      gv.loc())
+
+
 def rules(tier: str) -> list:  # type: ignore[type-arg]
-    return [r1_invalidity_filter, r2_factory_label, r3_something_negated, r4_labels, r5_mutations, r6_memo, r7_not_shapes_agree, r8_existential_predicates]
+    return [r1_invalidity_filter, r2_factory_label, r3_something_negated, r4_labels, r5_mutations, r6_memo, r7_not_shapes_agree, r8_existential_predicates, r9_oracle_dialect]
